@@ -190,11 +190,13 @@ check("C06", "collection removes exactly the garbage, converges, is not starved"
       "Randomised search over object graphs and delete histories in two healthy repositories plus up to six unhealthy ones (only ever read, emptied and removed, index.json garbage or deleted, directory "
       "deleted behind the store), everything older than the grace period; one store-wide pass must leave, in every healthy repository, only blobs reachable from the surviving index entries, no entry "
       "without blob, nothing untagged/unrooted when untagged collection is on, no non-empty referrers response of a subject it removed (policies of Appendix B), no directory of an emptied repository, "
-      "and a second pass must change neither index, blob set, API answers nor the tree.",
+      "and a second pass must change neither index, blob set, API answers nor the tree. TestC06Expiry (virtual-time bubble aligned with the real clock, directory store with its own ticker and session expiry "
+      "running): repositories that only ever held upload sessions - created, kept alive by a slow client, cancelled or left to expire at generated times - must be gone after a quiet period.",
       "Trusted: reachability computed by the harness over blobs read back through the API and the index obtained through the add-only hook VerifIndexJSON; ambiguous policy combinations (Untagged off + "
       "ReferrersDangling on for never-existing subjects) and empty responses are not asserted.",
       "DESIGN.md §3 C06",
-      [R("^TestC06$", 6000, 300000, steps=30), R("^TestC06Monotone$", 3200, 100000, steps=30)])
+      [R("^TestC06$", 6000, 300000, steps=30), R("^TestC06Monotone$", 3200, 100000, steps=30),
+       R("^TestC06Expiry$", 4000, 200000, steps=14, variant="go126")])
 
 check("C15", "any request gets a well-formed answer", "exploration",
       "grammar-based request generator in rapid sequences over prepared states + the same generator under Go's native coverage-guided fuzzer (thorough); oracle = no panic, no 5xx on healthy storage, OCI error schema + code table + condition-specific codes, independent router",
